@@ -93,34 +93,34 @@ fn fees_part(s: &mut Scen, rng: &mut Rng, rep: &mut Report) {
         Some(_) => s.w.ata(&fw, &ho.mint),
         None => s.w.add_ata(fw, ho.mint, 0),
     };
-    must_fail(s, &ix::collect_fees(&h, stranger_ata), "C19 collect-accepts-substituted-account: fee_ata = ATA of a wallet that is not the global fee wallet", rep);
-    must_fail(s, &ix::collect_fees(&h, non_ata), "C19 collect-accepts-substituted-account: fee_ata = non-ATA token account of the global fee wallet", rep);
+    must_fail(s, &ix::collect_fees(&h, stranger_ata), "collect-accepts-substituted-account: fee_ata = ATA of a wallet that is not the global fee wallet", rep);
+    must_fail(s, &ix::collect_fees(&h, non_ata), "collect-accepts-substituted-account: fee_ata = non-ATA token account of the global fee wallet", rep);
     if ho.mint != h.mint {
-        must_fail(s, &ix::collect_fees(&h, other_mint_ata), "C19 collect-accepts-substituted-account: fee_ata = fee wallet's ATA for another mint", rep);
+        must_fail(s, &ix::collect_fees(&h, other_mint_ata), "collect-accepts-substituted-account: fee_ata = fee wallet's ATA for another mint", rep);
     }
     let mut sub = h;
     sub.insurance_vault = ho.insurance_vault;
-    must_fail(s, &ix::collect_fees(&sub, ata), "C19 collect-accepts-substituted-account: insurance_vault of another bank", rep);
+    must_fail(s, &ix::collect_fees(&sub, ata), "collect-accepts-substituted-account: insurance_vault of another bank", rep);
     let mut sub = h;
     sub.fee_vault = ho.fee_vault;
-    must_fail(s, &ix::collect_fees(&sub, ata), "C19 collect-accepts-substituted-account: fee_vault of another bank", rep);
+    must_fail(s, &ix::collect_fees(&sub, ata), "collect-accepts-substituted-account: fee_vault of another bank", rep);
     let mut sub = h;
     sub.fee_vault = h.insurance_vault;
     sub.insurance_vault = h.fee_vault;
-    must_fail(s, &ix::collect_fees(&sub, ata), "C19 collect-accepts-substituted-account: fee and insurance vaults swapped", rep);
+    must_fail(s, &ix::collect_fees(&sub, ata), "collect-accepts-substituted-account: fee and insurance vaults swapped", rep);
     let mut sub = h;
     sub.liquidity_vault = ho.liquidity_vault;
-    must_fail(s, &ix::collect_fees(&sub, ata), "C19 collect-accepts-substituted-account: liquidity_vault of another bank", rep);
+    must_fail(s, &ix::collect_fees(&sub, ata), "collect-accepts-substituted-account: liquidity_vault of another bank", rep);
     let mut sub = h;
     sub.insurance_vault = s.users[0].toks[b];
-    must_fail(s, &ix::collect_fees(&sub, ata), "C19 collect-accepts-substituted-account: insurance_vault = a user's token account", rep);
+    must_fail(s, &ix::collect_fees(&sub, ata), "collect-accepts-substituted-account: insurance_vault = a user's token account", rep);
     // ---- the genuine call
     let pre = (s.w.token_amount(&h.insurance_vault), s.w.token_amount(&h.fee_vault), s.w.token_amount(&ata));
     if s.w.exec(&ix::collect_fees(&h, ata)).is_ok() {
         rep.bump("collect_ok");
         let post = (s.w.token_amount(&h.insurance_vault), s.w.token_amount(&h.fee_vault), s.w.token_amount(&ata));
         if post.0 < pre.0 || post.1 < pre.1 || post.2 < pre.2 {
-            rep.fail("C19 a fee destination lost tokens during collection".to_string());
+            rep.fail("a fee destination lost tokens during collection".to_string());
         }
     }
     // ---- draw-down: admin only
@@ -133,34 +133,34 @@ fn fees_part(s: &mut Scen, rng: &mut Rng, rep: &mut Report) {
         }
         let amt = 1 + rng.below(have);
         let mk = |signer: Pubkey, d: Pubkey| if is_fee { ix::withdraw_fees(&h, signer, d, amt) } else { ix::withdraw_insurance(&h, signer, d, amt) };
-        must_fail(s, &mk(stranger, stranger_ata), &format!("C19 {}-vault draw-down signed by a non-admin", name), rep);
-        must_fail(s, &mk(s.users[0].wallet, s.users[0].toks[b]), &format!("C19 {}-vault draw-down signed by a user", name), rep);
+        must_fail(s, &mk(stranger, stranger_ata), &format!("{}-vault draw-down signed by a non-admin", name), rep);
+        must_fail(s, &mk(s.users[0].wallet, s.users[0].toks[b]), &format!("{}-vault draw-down signed by a user", name), rep);
         let mut hw = h;
         if is_fee { hw.fee_vault = ho.fee_vault } else { hw.insurance_vault = ho.insurance_vault };
         let wrong = if is_fee { ix::withdraw_fees(&hw, admin, dst, amt) } else { ix::withdraw_insurance(&hw, admin, dst, amt) };
-        must_fail(s, &wrong, &format!("C19 {}-vault draw-down through bank A of bank B's vault", name), rep);
+        must_fail(s, &wrong, &format!("{}-vault draw-down through bank A of bank B's vault", name), rep);
         let (pv, pd, pw) = (s.w.token_amount(&vault_key), s.w.token_amount(&dst), s.w.token_withheld(&dst));
         match s.w.exec(&mk(admin, dst)) {
             Ok(()) => {
                 rep.bump("admin_drawdown_ok");
                 let (v2, d2, w2) = (s.w.token_amount(&vault_key), s.w.token_amount(&dst), s.w.token_withheld(&dst));
                 if pv - v2 != amt || (d2 - pd) + (w2 - pw) != amt {
-                    rep.fail(format!("C19 admin {}-vault draw-down of {} moved {} out and {} in", name, amt, pv - v2, (d2 - pd) + (w2 - pw)));
+                    rep.fail(format!("admin {}-vault draw-down of {} moved {} out and {} in", name, amt, pv - v2, (d2 - pd) + (w2 - pw)));
                 }
             }
-            Err(e) => rep.fail(format!("C19 admin {}-vault draw-down of {} (vault {}) refused: {}", name, amt, have, e)),
+            Err(e) => rep.fail(format!("admin {}-vault draw-down of {} (vault {}) refused: {}", name, amt, have, e)),
         }
     }
     // ---- permissionless sweep: only to the stored destination, which only the admin sets
     let have = s.w.token_amount(&h.fee_vault);
-    must_fail(s, &ix::withdraw_fees_permissionless(&h, stranger_ata, have.min(5)), "C19 permissionless fee sweep before any destination was fixed", rep);
+    must_fail(s, &ix::withdraw_fees_permissionless(&h, stranger_ata, have.min(5)), "permissionless fee sweep before any destination was fixed", rep);
     let fixed = s.w.add_token_account(h.mint, admin, 0);
-    must_fail(s, &ix::update_fees_destination(&h, stranger, stranger_ata), "C19 fees destination set by a non-admin", rep);
-    must_fail(s, &ix::update_fees_destination(&h, admin, other_mint_ata), "C19 fees destination of another mint", rep);
+    must_fail(s, &ix::update_fees_destination(&h, stranger, stranger_ata), "fees destination set by a non-admin", rep);
+    must_fail(s, &ix::update_fees_destination(&h, admin, other_mint_ata), "fees destination of another mint", rep);
     if s.w.exec(&ix::update_fees_destination(&h, admin, fixed)).is_ok() {
         rep.bump("dest_fixed");
-        must_fail(s, &ix::withdraw_fees_permissionless(&h, stranger_ata, 1), "C19 permissionless fee sweep to a destination other than the fixed one", rep);
-        must_fail(s, &ix::withdraw_fees_permissionless(&h, dst, 1), "C19 permissionless fee sweep to another account of the admin", rep);
+        must_fail(s, &ix::withdraw_fees_permissionless(&h, stranger_ata, 1), "permissionless fee sweep to a destination other than the fixed one", rep);
+        must_fail(s, &ix::withdraw_fees_permissionless(&h, dst, 1), "permissionless fee sweep to another account of the admin", rep);
         let (pv, pd, pw) = (s.w.token_amount(&h.fee_vault), s.w.token_amount(&fixed), s.w.token_withheld(&fixed));
         let ask = rng.below(pv.saturating_mul(2) + 2);
         if s.w.exec(&ix::withdraw_fees_permissionless(&h, fixed, ask)).is_ok() {
@@ -168,11 +168,11 @@ fn fees_part(s: &mut Scen, rng: &mut Rng, rep: &mut Report) {
             let moved = pv - s.w.token_amount(&h.fee_vault);
             let got = (s.w.token_amount(&fixed) - pd) + (s.w.token_withheld(&fixed) - pw);
             if moved != ask.min(pv) || got != moved {
-                rep.fail(format!("C19 permissionless sweep of {} (vault {}) moved {} out and {} in", ask, pv, moved, got));
+                rep.fail(format!("permissionless sweep of {} (vault {}) moved {} out and {} in", ask, pv, moved, got));
             }
         }
     } else {
-        rep.fail("C19 admin could not fix the fees destination".to_string());
+        rep.fail("admin could not fix the fees destination".to_string());
     }
 }
 
@@ -204,8 +204,10 @@ fn emissions_part(s: &mut Scen, rng: &mut Rng, rep: &mut Report) {
     bank.flags |= fl;
     bank.emissions_remaining = I80F48::from_num(funded_tokens).into();
     s.w.set_bank(&h.bank, &bank);
-    let funded = BigInt::from(funded_tokens) * BigInt::from(ONE);
+    let mut funded_tokens = funded_tokens;
     let mut paid: u64 = 0;
+    // the monitor's OWN record of when each position's rewards were last brought up to date
+    let mut last_claim: Vec<Option<i64>> = vec![None; s.users.len()];
     let dsts: Vec<Pubkey> = s.users.iter().map(|u| u.wallet).collect::<Vec<_>>().iter().map(|w| s.w.add_token_account(emint, *w, 0)).collect();
     let dest_wallets: Vec<Pubkey> = (0..s.users.len()).map(|_| s.w.add_wallet(0)).collect();
     let dest_atas: Vec<Pubkey> = dest_wallets.iter().map(|w| s.w.add_ata(*w, emint, 0)).collect();
@@ -219,25 +221,39 @@ fn emissions_part(s: &mut Scen, rng: &mut Rng, rep: &mut Report) {
         }).sum()
     };
     let base0 = outstanding(s); // positions may carry earlier (zero) outstanding
-    let check = |s: &Scen, paid: u64, what: &str, rep: &mut Report| {
+    let check = |s: &Scen, paid: u64, funded_tokens: u64, what: &str, rep: &mut Report| {
+        let funded = BigInt::from(funded_tokens) * BigInt::from(ONE);
         let bk = s.w.bank(&h.bank);
         let rem = bits(bk.emissions_remaining);
         if rem < 0 {
-            rep.fail(format!("C19 emissions_remaining negative ({}) after {}", rem, what));
+            rep.fail(format!("emissions_remaining negative ({}) after {}", rem, what));
         }
         let total = BigInt::from(rem) + outstanding(s) - &base0 + BigInt::from(paid) * BigInt::from(ONE);
         if total != funded {
-            rep.fail(format!("C19 emissions pool equation broken after {}: remaining {} + outstanding {} + paid {}·2^48 != funded {}·2^48", what, rem, outstanding(s), paid, funded_tokens));
+            rep.fail(format!("emissions pool equation broken after {}: remaining {} + outstanding {} + paid {}·2^48 != funded {}·2^48", what, rem, outstanding(s), paid, funded_tokens));
         }
         let v = s.w.token_amount(&vault);
         if v != funded_tokens - paid {
-            rep.fail(format!("C19 emissions vault holds {} but funded {} - paid {} after {}", v, funded_tokens, paid, what));
+            rep.fail(format!("emissions vault holds {} but funded {} - paid {} after {}", v, funded_tokens, paid, what));
         }
     };
     for _ in 0..(8 + rng.below(10)) {
         let u = rng.below(s.users.len() as u64) as usize;
         let (acct, wallet) = (s.users[u].acct, s.users[u].wallet);
-        match rng.below(12) {
+        match rng.below(13) {
+            12 => {
+                // the emissions admin tops the campaign up (state edit: pool and vault together)
+                let add = 1 + rng.below(1_000_000_000);
+                let mut bk = s.w.bank(&h.bank);
+                let rem = bits(bk.emissions_remaining);
+                bk.emissions_remaining = I80F48::from_bits(rem + (add as i128) * ONE).into();
+                s.w.set_bank(&h.bank, &bk);
+                let v = s.w.token_amount(&vault);
+                s.w.set_token_amount(&vault, v + add);
+                funded_tokens += add;
+                rep.bump("top_up");
+                if rem == 0 { rep.bump("top_up_after_exhaustion"); }
+            }
             0 | 1 | 10 | 11 => {
                 let dt = *rng.pick(&[1i64, 3600, 86400, 604800, 31_536_000, 31_536_000]);
                 s.w.advance(dt);
@@ -253,7 +269,7 @@ fn emissions_part(s: &mut Scen, rng: &mut Rng, rep: &mut Report) {
                     if let (Some(x0), Some(x1)) = (pre_acct.lending_account.balances.iter().find(|x| x.is_active() && x.bank_pk == h.bank), post_acct.lending_account.balances.iter().find(|x| x.is_active() && x.bank_pk == h.bank)) {
                         let credit = bits(x1.emissions_outstanding) - bits(x0.emissions_outstanding);
                         if credit < 0 {
-                            rep.fail(format!("C19 settle_emissions reduced a position's outstanding rewards by {}", -credit));
+                            rep.fail(format!("settle_emissions reduced a position's outstanding rewards by {}", -credit));
                         }
                         let (a, l) = (bits(x0.asset_shares), bits(x0.liability_shares));
                         let lend = pre_bank.flags & EMISSIONS_FLAG_LENDING_ACTIVE != 0;
@@ -261,72 +277,80 @@ fn emissions_part(s: &mut Scen, rng: &mut Rng, rep: &mut Report) {
                         let amount_bits: BigInt = if a > l && lend { (BigInt::from(a) * BigInt::from(bits(pre_bank.asset_share_value))) >> 48u32 }
                             else if l > a && bor { (BigInt::from(l) * BigInt::from(bits(pre_bank.liability_share_value))) >> 48u32 }
                             else { BigInt::from(0) };
-                        let t = (now as i128 - x0.last_update as i128).max(0);
+                        if x1.last_update != now as u64 {
+                            rep.fail(format!("settle_emissions left the position's last_update at {} (now {})", x1.last_update, now));
+                        }
+                        // elapsed time since the rewards were last brought up to date, by the monitor's own record
+                        let t = match last_claim[u] { Some(t0) => (now - t0) as i128, None => (now as i128 - x0.last_update as i128).max(0) };
                         // credit_bits · 10^d · YEAR ≤ rate · T · amount_bits   (real-number proportionality, rounding only down)
                         let lhs = BigInt::from(credit) * BigInt::from(10u64.pow(pre_bank.mint_decimals as u32)) * BigInt::from(31_536_000u64);
                         let rhs = BigInt::from(pre_bank.emissions_rate) * BigInt::from(t) * amount_bits;
                         if lhs > rhs {
-                            rep.fail(format!("C19 credited emissions {} exceed rate x time x size (rate {} t {} shares a={} l={})", credit, pre_bank.emissions_rate, t, a, l));
+                            rep.fail(format!("credited emissions {} exceed rate x time x size (rate {} t {} shares a={} l={})", credit, pre_bank.emissions_rate, t, a, l));
                         }
                         if credit > 0 { rep.bump("credit_positive"); }
                         if credit == bits(pre_bank.emissions_remaining) && credit > 0 { rep.bump("cap_binds"); }
                     }
-                    check(s, paid, "settle", rep);
+                    last_claim[u] = Some(now);
+                    check(s, paid, funded_tokens, "settle", rep);
                 }
             }
             4 => {
                 // user activity (claims inside the wrapper)
                 let act = if rng.chance(1, 2) { Act::Deposit { u, b, amt: 1 + rng.below(1_000_000_000), upto: false } } else { Act::Withdraw { u, b, amt: 1 + rng.below(1_000_000), all: false } };
                 if let Some(Ok(())) = s.step(&act, &mut scratch) {
-                    check(s, paid, "user activity", rep);
+                    last_claim[u] = Some(s.w.clock_ts);
+                    check(s, paid, funded_tokens, "user activity", rep);
                 }
             }
             5 | 6 => {
                 // authorised withdrawal; first the substitutions that must be refused
-                must_fail(s, &ix::withdraw_emissions(&h, acct, stranger, emint, vault, stranger_tok, tp), "C19 withdraw_emissions signed by a stranger", rep);
+                must_fail(s, &ix::withdraw_emissions(&h, acct, stranger, emint, vault, stranger_tok, tp), "withdraw_emissions signed by a stranger", rep);
                 let other = s.users[(u + 1) % s.users.len()].wallet;
                 if other != wallet {
-                    must_fail(s, &ix::withdraw_emissions(&h, acct, other, emint, vault, stranger_tok, tp), "C19 withdraw_emissions signed by another user", rep);
+                    must_fail(s, &ix::withdraw_emissions(&h, acct, other, emint, vault, stranger_tok, tp), "withdraw_emissions signed by another user", rep);
                 }
-                must_fail(s, &ix::withdraw_emissions(&h, acct, wallet, emint, stranger_tok, dsts[u], tp), "C19 withdraw_emissions from a substituted emissions vault", rep);
+                must_fail(s, &ix::withdraw_emissions(&h, acct, wallet, emint, stranger_tok, dsts[u], tp), "withdraw_emissions from a substituted emissions vault", rep);
                 let (pv, pd) = (s.w.token_amount(&vault), s.w.token_amount(&dsts[u]));
                 if s.w.exec(&ix::withdraw_emissions(&h, acct, wallet, emint, vault, dsts[u], tp)).is_ok() {
                     rep.bump("withdraw_ok");
                     let moved = pv - s.w.token_amount(&vault);
                     if s.w.token_amount(&dsts[u]) - pd != moved {
-                        rep.fail(format!("C19 withdraw_emissions took {} from the vault but the destination got {}", moved, s.w.token_amount(&dsts[u]) - pd));
+                        rep.fail(format!("withdraw_emissions took {} from the vault but the destination got {}", moved, s.w.token_amount(&dsts[u]) - pd));
                     }
                     paid += moved;
                     if moved > 0 { rep.bump("payout_positive"); }
-                    check(s, paid, "withdraw_emissions", rep);
+                    last_claim[u] = Some(s.w.clock_ts);
+                    check(s, paid, funded_tokens, "withdraw_emissions", rep);
                 }
             }
             _ => {
                 // permissionless withdrawal
                 let a = s.w.marginfi_account(&acct);
                 if a.emissions_destination_account == Pubkey::default() {
-                    must_fail(s, &ix::withdraw_emissions_permissionless(&h, acct, emint, vault, dest_atas[u], tp), "C19 permissionless emissions withdrawal with no destination chosen", rep);
-                    must_fail(s, &ix::update_emissions_destination(acct, stranger, stranger), "C19 emissions destination set by a stranger", rep);
+                    must_fail(s, &ix::withdraw_emissions_permissionless(&h, acct, emint, vault, dest_atas[u], tp), "permissionless emissions withdrawal with no destination chosen", rep);
+                    must_fail(s, &ix::update_emissions_destination(acct, stranger, stranger), "emissions destination set by a stranger", rep);
                     if s.w.exec(&ix::update_emissions_destination(acct, wallet, dest_wallets[u])).is_err() {
-                        rep.fail("C19 the account authority could not set its emissions destination".to_string());
+                        rep.fail("the account authority could not set its emissions destination".to_string());
                         continue;
                     }
                 }
-                must_fail(s, &ix::withdraw_emissions_permissionless(&h, acct, emint, vault, stranger_tok, tp), "C19 permissionless emissions withdrawal to a stranger's token account", rep);
-                must_fail(s, &ix::withdraw_emissions_permissionless(&h, acct, emint, vault, dsts[u], tp), "C19 permissionless emissions withdrawal to a non-ATA account (not the chosen wallet's ATA)", rep);
+                must_fail(s, &ix::withdraw_emissions_permissionless(&h, acct, emint, vault, stranger_tok, tp), "permissionless emissions withdrawal to a stranger's token account", rep);
+                must_fail(s, &ix::withdraw_emissions_permissionless(&h, acct, emint, vault, dsts[u], tp), "permissionless emissions withdrawal to a non-ATA account (not the chosen wallet's ATA)", rep);
                 let ou = (u + 1) % s.users.len();
                 if ou != u {
-                    must_fail(s, &ix::withdraw_emissions_permissionless(&h, acct, emint, vault, dest_atas[ou], tp), "C19 permissionless emissions withdrawal to another account's chosen destination", rep);
+                    must_fail(s, &ix::withdraw_emissions_permissionless(&h, acct, emint, vault, dest_atas[ou], tp), "permissionless emissions withdrawal to another account's chosen destination", rep);
                 }
                 let (pv, pd) = (s.w.token_amount(&vault), s.w.token_amount(&dest_atas[u]));
                 if s.w.exec(&ix::withdraw_emissions_permissionless(&h, acct, emint, vault, dest_atas[u], tp)).is_ok() {
                     rep.bump("permissionless_ok");
                     let moved = pv - s.w.token_amount(&vault);
                     if s.w.token_amount(&dest_atas[u]) - pd != moved {
-                        rep.fail(format!("C19 permissionless emissions withdrawal took {} but the destination got {}", moved, s.w.token_amount(&dest_atas[u]) - pd));
+                        rep.fail(format!("permissionless emissions withdrawal took {} but the destination got {}", moved, s.w.token_amount(&dest_atas[u]) - pd));
                     }
                     paid += moved;
-                    check(s, paid, "withdraw_emissions_permissionless", rep);
+                    last_claim[u] = Some(s.w.clock_ts);
+                    check(s, paid, funded_tokens, "withdraw_emissions_permissionless", rep);
                 }
             }
         }
